@@ -134,6 +134,41 @@ except AssumeFailed:
     print("REPLAY: input does not satisfy an in-body assumption"); sys.exit(4)
 except HarnessError as e:
     print("REPLAY: harness error", e); sys.exit(3)
+except AttributeError as e:
+    # a missing attribute on one of the harness's own fake objects means the harness cannot drive this
+    # (possibly restructured) code: that is a harness problem, not a property result
+    import inspect
+    try:
+        src = inspect.getsourcefile(type(getattr(e, "obj", None))) or ""
+    except TypeError:
+        src = ""
+    traceback.print_exc()
+    if src.startswith({root!r}):
+        print("REPLAY: harness fake lacks attribute", repr(e)); sys.exit(3)
+    print("REPLAY: real code raised", repr(e)); sys.exit(1)
+except TypeError as e:
+    # "f() missing/takes/got ..." where f is one of the harness's own stand-ins: the (possibly restructured)
+    # real code calls a fake with a signature the fake does not support -> harness problem, not a result
+    import re as _re, types as _types
+    traceback.print_exc()
+    mm = _re.match(r"([\w.<>]+)\(\) (?:missing|takes|got)", str(e))
+    def _harness_callables():
+        out = set()
+        for mod in list(sys.modules.values()):
+            if not str(getattr(mod, "__file__", "") or "").startswith({root!r}):
+                continue
+            for v in list(vars(mod).values()):
+                vs = [v]
+                if isinstance(v, type) and getattr(v, "__module__", None) == mod.__name__:
+                    vs += list(vars(v).values())
+                for x in vs:
+                    x = getattr(x, "__func__", x)
+                    if isinstance(x, _types.FunctionType):
+                        out.add(x.__qualname__)
+        return out
+    if mm and mm.group(1) in _harness_callables():
+        print("REPLAY: a harness stand-in was called with an unsupported signature", repr(e)); sys.exit(3)
+    print("REPLAY: real code raised", repr(e)); sys.exit(1)
 except Exception as e:
     traceback.print_exc()
     print("REPLAY: real code raised", repr(e)); sys.exit(1)
